@@ -1,5 +1,6 @@
 (* C15 -- option list and message builder behave like a sorted multiset.
-   Statements only; proofs are in Opt/Proofs.v. Model: Opt/Model.v (stated over
+   Statements only; proofs are in Opt/Proofs.v, Opt/ProofsPath.v (paths, full
+   alphabet) and Opt/ProofsValues.v (byte level). Model: Opt/Model.v (stated over
    Gen.OptConsts, regenerated from the source on every run); reference:
    Opt/Spec.v.  [sorted l]: option numbers ascend with the index.
    [split3 l id a c]: positions [0,a) carry smaller numbers, [a,c) the number
@@ -7,7 +8,7 @@
    sorted and is the reference's result (e = nil), or the reference refuses too
    and l' = l. *)
 From Coq Require Import ZArith List Bool.
-From GoCoap Require Import Gen.OptConsts Opt.Model Opt.Spec Opt.Proofs.
+From GoCoap Require Import Gen.OptConsts Opt.Model Opt.Spec Opt.Proofs Opt.ProofsPath Opt.ProofsValues.
 Import ListNotations.
 Open Scope Z_scope.
 
@@ -42,29 +43,140 @@ Theorem C15_find_refines : forall l id, sorted l ->
 Proof. exact find_refines. Qed.
 Print Assumptions C15_find_refines.
 
-(* Full statement: every operation of the alphabet refines the reference.
-   Proved for every operation except set-path (OSetPath), whose loop is tied to
-   the reference by the correspondence check only (notes/C15.md). *)
-Theorem C15_step_refines_partial : forall l o, sorted l -> op_wf o -> not_path o ->
+(* ---- paths ---- *)
+
+(* the strings.Index loops of GetPathBufferSize and setPath never run out of
+   their fuel (len+1), for every path, list and buffer *)
+Theorem C15_path_fuel : forall l id b p, get_path_buffer_size p <> PFuel /\ set_path l id b p <> SFuel.
+Proof. exact path_fuel. Qed.
+Print Assumptions C15_path_fuel.
+
+(* GetPathBufferSize = sum of the reference's segment lengths, or the error
+   exactly when a segment exceeds 255 bytes *)
+Theorem C15_path_buffer_size : forall p,
+  get_path_buffer_size p = if segs_ok p then PSize (segs_total p) else PErr.
+Proof. exact get_path_buffer_size_spec. Qed.
+Print Assumptions C15_path_buffer_size.
+
+(* setPath (SetPath / SetLocationPath: any option number id), all outcomes, on
+   every sorted list, for every byte string p and buffer length b *)
+Theorem C15_set_path : forall l id b p, sorted l ->
+  set_path l id b p =
+    match p with
+    | [] => SRes (l, 0, ENone)
+    | _ => if negb (segs_ok p) then SRes (l, -1, EInvalidValueLength)
+           else if b <? segs_total p then SRes (l, -1, ETooSmall)
+           else SRes (ref_set_path id p l, segs_total p, ENone)
+    end.
+Proof. exact set_path_spec. Qed.
+Print Assumptions C15_set_path.
+
+(* the round trip: segments at most 255 bytes and a sufficient buffer =>
+   performed; the list is the reference's (old options of that number removed,
+   one option per non-empty segment in order, other numbers untouched, still
+   sorted); Path()/LocationPath() of the result (32-byte buffer, one retry) is
+   the normalised path. A path without segments ("/", "//") leaves no option:
+   Path() answers ("", ErrOptionNotFound) and normalise p = "". *)
+Theorem C15_path_round_trip : forall l id p b, sorted l -> p <> [] -> segs_ok p = true -> segs_total p <= b ->
+  let l' := ref_set_path id p l in
+  set_path l id b p = SRes (l', segs_total p, ENone) /\
+  sorted l' /\
+  ref_values id l' = segments p /\
+  (forall id', id' <> id -> ref_values id' l' = ref_values id' l) /\
+  path_str l' id = Ok (match segments p with [] => ENotFound | _ => ENone end, normalise p).
+Proof. exact path_round_trip. Qed.
+Print Assumptions C15_path_round_trip.
+
+(* a segment longer than 255 bytes or an insufficient buffer: refused, the
+   list is returned unchanged (sortedness not needed) *)
+Theorem C15_path_refused : forall l id p b, p <> [] -> segs_ok p = false \/ b < segs_total p ->
+  exists e, e <> ENone /\ set_path l id b p = SRes (l, -1, e).
+Proof. exact path_refused. Qed.
+Print Assumptions C15_path_refused.
+
+(* Path() / LocationPath() on any sorted list: never a Panic, the buffer and
+   the single retry always suffice, the answer is the reference's join *)
+Theorem C15_path_str : forall l id, sorted l ->
+  path_str l id = if ref_has id l then Ok (ENone, ref_path id l) else Ok (ENotFound, []).
+Proof. exact path_str_spec. Qed.
+Print Assumptions C15_path_str.
+
+(* ---- the full operation alphabet ---- *)
+
+(* every operation of the alphabet (set-path included) refines the reference:
+   performed = reference list, refused = unchanged and the reference refuses *)
+Theorem C15_step_refines : forall l o, sorted l -> op_wf o ->
   let '(l', _, e) := ostep l o in refines true l o l' e.
-Proof. exact ostep_refines. Qed.
-Print Assumptions C15_step_refines_partial.
+Proof. exact ostep_refines_full. Qed.
+Print Assumptions C15_step_refines.
 
 (* all operation sequences on message.Options (induction over the sequence):
    the list stays sorted and equals the reference fold *)
-Theorem C15_sorted_inv_partial : forall ops l, sorted l -> Forall op_wf ops -> Forall not_path ops ->
+Theorem C15_sorted_inv : forall ops l, sorted l -> Forall op_wf ops ->
   orun ops l = ref_run true ops l /\ sorted (orun ops l).
-Proof. exact orun_refines. Qed.
-Print Assumptions C15_sorted_inv_partial.
+Proof. exact orun_refines_full. Qed.
+Print Assumptions C15_sorted_inv.
 
-(* pool.Message builder methods (value buffer grown and retried): a performed
-   step is the reference's edit, a refused one (panic/error) leaves the list
-   unchanged. Missing for the full statement: set-path, and "refused only when
-   the reference refuses". *)
-Theorem C15_builder_refines_partial : forall s o, sorted (m_opts s) -> op_wf o -> not_path o ->
-  let '(s', e) := mstep s o in mrefines (m_opts s) o (m_opts s') e.
-Proof. exact mstep_refines. Qed.
-Print Assumptions C15_builder_refines_partial.
+(* pool.Message builder methods (value buffer grown and retried; SetPath grows
+   by GetPathBufferSize): performed exactly when the reference without a
+   buffer limit performs, with the reference's list; refused (error / panic)
+   exactly when the reference refuses, list unchanged.  [mwf s]: list sorted,
+   len(valueBuffer) >= 0. *)
+Theorem C15_builder_refines : forall s o, mwf s -> op_wf o ->
+  let '(s', e) := mstep s o in refines false (m_opts s) o (m_opts s') e /\ mwf s'.
+Proof. exact mstep_refines_full. Qed.
+Print Assumptions C15_builder_refines.
+
+(* all histories of builder calls *)
+Theorem C15_builder_inv : forall ops s, mwf s -> Forall op_wf ops ->
+  m_opts (mrun ops s) = ref_run false ops (m_opts s) /\ mwf (mrun ops s).
+Proof. exact mrun_refines. Qed.
+Print Assumptions C15_builder_inv.
+
+(* ---- byte level (Opt/ProofsValues.v): option values are slice headers into
+   arrays; the window r.valueBuffer; append reallocates with any capacity ---- *)
+
+(* every step of the byte-level builder reads back (headers -> bytes) as the
+   step of the list-level builder that the correspondence check ties to the Go
+   code; the invariant is kept; no valid header outside the writable part of
+   the window changes its bytes, and (unless the step is Reset) it stays
+   outside *)
+Theorem C15_values_project : forall s o slack, vwf s -> 0 <= slack ->
+  let r := vstep s o slack in
+  mstep (mproj s) o = (mproj (fst r), snd r) /\ vwf (fst r) /\
+  keeps (v_mem s) (v_win s) (v_mem (fst r)) /\
+  (o <> OReset -> protects (v_mem s) (v_win s) (v_win (fst r))).
+Proof. exact vstep_sim. Qed.
+Print Assumptions C15_values_project.
+
+Theorem C15_values_project_run : forall steps s, vwf s -> Forall (fun x => 0 <= snd x) steps ->
+  mproj (vrun steps s) = mrun (map fst steps) (mproj s) /\ vwf (vrun steps s).
+Proof. exact vrun_sim. Qed.
+Print Assumptions C15_values_project_run.
+
+(* values byte-exact and unaffected by later edits or internal buffer growth:
+   the bytes of every option value stored in the message are the same after
+   any later history of builder calls (any reallocation capacities) that does
+   not Reset the message ... *)
+Theorem C15_values_stable : forall steps s x, vwf s -> Forall (fun x => 0 <= snd x) steps ->
+  Forall (fun x => fst x <> OReset) steps -> In x (v_opts s) ->
+  rd (v_mem (vrun steps s)) (oval x) = rd (v_mem s) (oval x).
+Proof. exact stored_values_stable. Qed.
+Print Assumptions C15_values_stable.
+
+(* ... and no single call, Reset included, changes them *)
+Theorem C15_values_stable_step : forall s o k x, vwf s -> 0 <= k -> In x (v_opts s) ->
+  rd (v_mem (fst (vstep s o k))) (oval x) = rd (v_mem s) (oval x).
+Proof. exact stored_values_stable_step. Qed.
+Print Assumptions C15_values_stable_step.
+
+(* from NewMessage: what the stored headers read is the reference's list, i.e.
+   exactly the bytes the callers passed, in sorted-multiset order *)
+Theorem C15_values_exact : forall steps, Forall (fun x => 0 <= snd x) steps -> Forall op_wf (map fst steps) ->
+  let s := vrun steps vnew in
+  proj (v_mem s) (v_opts s) = ref_run false (map fst steps) [] /\ vwf s.
+Proof. exact vrun_reference. Qed.
+Print Assumptions C15_values_exact.
 
 (* a refused ResetOptionsTo leaves the receiver unchanged; Clone of a sorted
    list is the list *)
@@ -117,10 +229,29 @@ Example C15_instance :
   get_uint32s (orun ops l) 60 1 = Ok (1, ENone, [70000]).
 Proof. vm_compute. repeat split. Qed.
 Example C15_instance_wf :
-  Forall op_wf [OAdd 11 [4]; OSetU32 60 70000 4; ORemove 11] /\ Forall not_path [OAdd 11 [4]; OSetU32 60 70000 4; ORemove 11].
+  Forall op_wf [OAdd 11 [4]; OSetU32 60 70000 4; ORemove 11; OSetPath 11 [47; 97; 47; 47; 98] 2].
 Proof.
-  split.
-  - apply Forall_cons; [exact I|]. apply Forall_cons; [|apply Forall_cons; [exact I|apply Forall_nil]].
-    unfold op_wf. split; [discriminate|reflexivity].
-  - apply Forall_cons; [exact I|]. apply Forall_cons; [exact I|]. apply Forall_cons; [exact I|apply Forall_nil].
+  apply Forall_cons; [exact I|]. apply Forall_cons; [|repeat (apply Forall_cons; [exact I|]); apply Forall_nil].
+  unfold op_wf. split; [discriminate|reflexivity].
 Qed.
+
+(* non-vacuity of the path and byte-level theorems: "/a//b" over an old path,
+   then a value that forces a reallocation (250 + 250 bytes > 256), a clone
+   and an overwrite; the level-2 state reads back as the level-1 run *)
+Example C15_instance_path :
+  let l := [(1, [9]); (11, [1]); (11, [2]); (15, [3])] in
+  let p := [47; 97; 47; 47; 98] in
+  segs_ok p = true /\ segs_total p = 2 /\
+  ostep l (OSetPath 11 p 2) = ([(1, [9]); (11, [97]); (11, [98]); (15, [3])], 2, ENone) /\
+  path_str (fst (fst (ostep l (OSetPath 11 p 2)))) 11 = Ok (ENone, [47; 97; 47; 98]) /\
+  ostep l (OSetPath 11 p 1) = (l, -1, ETooSmall).
+Proof. vm_compute. repeat split. Qed.
+Example C15_instance_values :
+  let big := repeat 7 250 in
+  let steps := [(OSet 11 [1; 2; 3], 0); (OAdd 4 big, 5); (OAddBytes 12 big 0, 0); (OSetPath 11 [47; 97; 47; 98] 0, 9);
+                (OClone, 1); (OSet 4 [8], 0)] in
+  let s := vrun steps vnew in
+  mproj s = mrun (map fst steps) m_new /\
+  m_opts (mproj s) = [(4, [8]); (11, [97]); (11, [98]); (12, big)] /\
+  len (v_mem s) = 4.
+Proof. vm_compute. repeat split. Qed.
